@@ -1,3 +1,4 @@
+mod collectcases;
 mod enc;
 mod enumgen;
 mod extcases;
